@@ -32,6 +32,17 @@ example : ∃ c reg, (reach [.mkPair 1]).clients 1 = some c ∧ lookup (reach [.
     reg ≠ clientFlags true c.backlog := by
   refine ⟨{ hasCb := true }, { r := true }, rfl, rfl, by decide⟩
 
+/-! ### failing creations -/
+
+/-- `listen` / `connect` / `pair` that return 0 (socket(), bind(), listen(), connect() or a socket option failed) are moves of
+    the histories all theorems of PropsC14 quantify over (`Move.failCreate`); they leave no trace: whatever happens before and
+    after, the run is the run without them -/
+theorem failed_creation_leaves_no_trace (ms ms' : List Move) :
+    reach (ms ++ Move.failCreate :: ms') = reach (ms ++ ms') := by
+  unfold reach
+  rw [runMoves_append, runMoves_append]
+  rfl
+
 /-! ### the `deleteClient` branch of the closing loop (Server.cpp 276-277) is dead in the repaired code -/
 
 /-- between two steps of run() (and outside run()) no client carries `_removed` and every client has its callback: the flag
